@@ -32,20 +32,23 @@ func init() {
 		Level: "exploration",
 		Rule: "type-directed random programs of the core language (arith/compare, strings, arrays, lists, hashes, def/set, let/letseq/newScope/begin, cond 1-4 arms, and/or 1-4 operands, for with plain and labelled break/continue below let/newScope/cond, fn/defn fixed and variadic, closures as arguments and results, map/apply), " +
 			"half of all sub-expressions wrapped in the host trace function; each program is run in a fresh interpreter as plain s-expression text and with whitespace/comment noise and judged against the reference evaluator (value, error-ness, ordered effect trace). " +
-			"non-trivial = distinct program text containing at least one control form (cond/and/or/for) and one function call, on which the reference terminated",
+			"Plus 22 programs with hand-computed expectations for what the generator does not produce: late binding of globals defined again (between and within evaluations, through closures and aliases), literals denoting fresh collections on every evaluation, arguments evaluated (effects and errors) before a wrong-arity call fails, append/concat results not sharing storage. non-trivial = distinct program text containing at least one control form (cond/and/or/for) and one function call, on which the reference terminated",
 		Assumptions: []string{
 			"the reference evaluator (harness/lang/ref.go) is the intended semantics; calibrated on the unchanged tree at several seeds with 0 disagreements",
 			"errors are compared by error-ness, never by message text",
 			"programs on which the reference itself exceeds its step budget are skipped (counted as inconclusive:ref-budget)",
 			"duplicate names in one let binding vector are not generated (unspecified)",
 		},
-		NCases:  func(c *core.Ctx) int { return thorN(c, 6000, 80000) },
-		MustSee: []string{"tr_events", "cond", "for", "calls", "break_or_continue", "battery_calls"},
+		NCases:  func(c *core.Ctx) int { return thorN(c, 6000, 80000) + len(c02Fixed) },
+		MustSee: []string{"tr_events", "cond", "for", "calls", "break_or_continue", "battery_calls", "fixed_programs"},
 		Run:     c02Run,
 	})
 }
 
 func c02Run(c *core.Ctx, i int) *core.Result {
+	if base := thorN(c, 6000, 80000); i >= base {
+		return c02FixedRun(c, i-base)
+	}
 	g, prog := c02Gen(c, i, 0)
 	text := lang.Plain.Program(prog)
 	res := &core.Result{Input: text, Hash: core.HashOf(text)}
